@@ -35,7 +35,11 @@ def validate(seed):
         demo, ddir = demo_info(seed)
         shutil.copy(os.path.join(seed, demo), os.path.join(wt, ddir, 'zz_seed_demo_test.go'))
         run = '^(' + '|'.join(re.findall(r'^func (Test\w+)', open(os.path.join(seed, demo)).read(), re.M)) + ')$'
-        democmd = ['go', 'test', '-vet=off', '-count=1', '-timeout', '180s', '-run', run, './' + ddir]
+        flags = []
+        mp = os.path.join(seed, 'meta.json')
+        if os.path.exists(mp):
+            flags = json.load(open(mp)).get('demo_flags', [])
+        democmd = ['go', 'test', '-vet=off', '-count=1', '-timeout', '300s'] + flags + ['-run', run, './' + ddir]
         rc, out = sh(democmd, wt)
         res['demo_without_change'] = 'pass' if rc == 0 else 'FAIL'
         res['demo_without_out'] = out[-600:]
